@@ -326,11 +326,14 @@ class IMAPSearch:
         defined in [RFC-822]) and that contains the specified string
         in the [RFC-822] field-body.
         """
-        header = self.args["header"]
+        # NOTE: A message may have several header fields of the same name
+        #       (`Received`, `X-...`); any one of them may contain the string.
+        #
+        string = self.args["string"]
         msg = self.ctx.msg()
-        return (
-            header in msg
-            and msg[header].lower().find(self.args["string"]) != -1
+        return any(
+            str(value).lower().find(string) != -1
+            for value in msg.get_all(self.args["header"], [])
         )
 
     #########################################################################
